@@ -8,8 +8,10 @@ From Coq Require Import String.
 From Coq Require Import List NArith Bool.
 From Wbxml Require Import Model.Codec Model.TablesDefs Gen.TablesData Model.Parser Model.TreeBuild Model.TreeConv Model.Conv Model.ConvConcrete
      Proofs.TreeBuildProofs Proofs.TreeBuildProofs3 Proofs.TreeRoundTrip Proofs.ConvRoundTrip Proofs.ConvSecondIter Proofs.ConvFirstToSecond Proofs.ConvSecondIndent Proofs.ConvSecondNs
-     Proofs.TreeRoundTripWide Proofs.ConvRoundTripWide Proofs.ConvWideUnforced Proofs.ConvSecondIterWide Proofs.ConvFirstToSecondWide Proofs.ConvSecondIndentWide.
+     Proofs.TreeRoundTripWide Proofs.ConvRoundTripWide Proofs.ConvWideUnforced Proofs.ConvSecondIterWide Proofs.ConvFirstToSecondWide Proofs.ConvSecondIndentWide Proofs.ConvWideEvents.
+From Wbxml Require Model.XmlFrontCanonEvents.
 From Wbxml Require Model.XmlFrontEvents Proofs.XmlFrontInverse Model.EncWbxmlEvents.
+From Wbxml Require Proofs.EncWbxmlSize Proofs.EncWbxmlSize2 Proofs.EncWbxmlSuccess.
 From Wbxml Require Proofs.EncWbxmlAbs Proofs.EncWbxmlDenote2 Proofs.EncWbxmlTblOk Proofs.EncWbxmlDenote3.
 From Wbxml Require Model.EncWbxml Model.EncWbxmlTables Model.TreeNorm Proofs.EncWbxmlProofs Proofs.EncWbxmlSerialize Proofs.EncWbxmlDenote.
 From Wbxml Require Model.EncXml Model.XmlRead Proofs.EncXmlProofs Proofs.EncXmlIndent.
@@ -493,14 +495,51 @@ Theorem C03_names_come_back_as_written : forall L tag attrs ch d, EncWbxmlTblOk.
 Proof. exact name_of_tree_ok3. Qed.
 Print Assumptions C03_names_come_back_as_written.
 
+(* THE WBXML ENCODER SUCCEEDS on the wide fragment (Proofs/EncWbxmlSuccess.v).  Its failure causes there are a LITERAL needed while
+   the string table is disabled, and the value splitting never terminating on an empty table row / string-table entry.  So:
+   plain_env, no empty attribute-value row in the language (lang_vals_ok), no empty element or attribute name (names_ok), and
+   every element writable (encodable: the string table is in use, or token tag and token attribute starts) ==> EOk. *)
+Theorem C03_encoder_succeeds_on_wide_fragment : forall tbl l o roots,
+  EncWbxmlAbs.plain_env (EncWbxml.enc_env l o) = true -> EncWbxmlSize.lang_vals_ok l -> EncWbxmlSize2.all_names_ok roots ->
+  EncWbxmlSuccess.all_encodable (EncWbxml.enc_env l o) roots ->
+  exists w, EncWbxml.enc_wbxml tbl l o roots = EncWbxml.EOk w.
+Proof. exact EncWbxmlSuccess.enc_wbxml_total. Qed.
+Print Assumptions C03_encoder_succeeds_on_wide_fragment.
+
+(* ... conversely, success with the string table DISABLED on a tree of tree_ok3 means the tree needed no literal ... *)
+Theorem C03_encoder_without_string_table_needs_no_literal : forall tbl L e, EncWbxml.e_lang e = EncWbxmlDenote2.to_blang L ->
+  EncWbxml.e_use_strtbl e = false ->
+  forall n d p st b st', EncWbxmlTblOk.tree_ok3 L d n = true -> EncWbxml.parse_node tbl e p n st = EncWbxml.EOk (b, st') ->
+  EncWbxmlSuccess.encodable e n.
+Proof. intros tbl L e HE HU n. exact (EncWbxmlSuccess.parse_node_inv tbl L e HE HU n). Qed.
+Print Assumptions C03_encoder_without_string_table_needs_no_literal.
+
+(* ... so success carries over from a source tree to its normal form (same language, same options), with both outputs bounded by
+   the size of the SOURCE tree (the size theorem of Proofs/EncWbxmlSize2.v: 33 octets per octet of the tree + the header) *)
+Theorem C03_encoder_success_carries_over_to_normal_form : forall tbl L o keep tag attrs ch w1,
+  let e := EncWbxml.enc_env (EncWbxmlDenote2.to_blang L) o in
+  let root := EncWbxml.NElt tag attrs ch in
+  let R2 := EncWbxml.NElt tag attrs (flat_map (TreeNorm.norm_node keep false) ch) in
+  EncWbxmlAbs.plain_env e = true -> EncWbxmlSize.lang_vals_ok (EncWbxmlDenote2.to_blang L) -> EncWbxmlSize2.names_ok root ->
+  EncWbxmlTblOk.tree_ok3 L 0 root = true ->
+  EncWbxml.enc_wbxml tbl (EncWbxmlDenote2.to_blang L) o [root] = EncWbxml.EOk w1 ->
+  EncWbxmlSuccess.encodable e R2 /\ EncWbxmlSize2.names_ok R2 /\
+  exists w2, EncWbxml.enc_wbxml tbl (EncWbxmlDenote2.to_blang L) o [R2] = EncWbxml.EOk w2 /\
+             (length w2 <= 33 * EncWbxmlSize2.wsize 0 root + EncWbxmlSize2.hdr (EncWbxmlDenote2.to_blang L))%nat /\
+             (length w1 <= 33 * EncWbxmlSize2.wsize 0 root + EncWbxmlSize2.hdr (EncWbxmlDenote2.to_blang L))%nat.
+Proof. exact EncWbxmlSuccess.enc_norm_success. Qed.
+Print Assumptions C03_encoder_success_carries_over_to_normal_form.
+
 (* ROUND TRIP AND IDEMPOTENCE ON THE WIDE FRAGMENT, from hypotheses about the SOURCE: C03_conversion_roundtrip_wide_partial composed
-   with C03_second_iteration_identical_wide_partial through the derivations above.  PARTIAL in: the wide fragment of the encoder
-   (tree_ok3, plain_env, no extension table, below 4 GiB, no element named Data), src_okW, the Expat assumption, compact / canonical
-   generation with a white-space policy not stricter than the encoder's (keep_compatible), not SyncML, the reader's hypotheses on
-   the strings (lang_ok, node_ok_g), and the success of the encoding of the normalised tree R2 (w2). *)
+   with C03_second_iteration_identical_wide_partial through the derivations above; the success of the second encoding (w2) is no
+   longer a hypothesis (C03_encoder_success_carries_over_to_normal_form).  PARTIAL in: the wide fragment of the encoder (tree_ok3,
+   plain_env, no extension table, no element named Data, no empty row name / element name / attribute name, a source tree whose
+   output fits 32 bits: 33 * wsize + header < 2^32), src_okW, the Expat assumption (events_of_info_ns), compact / canonical generation
+   with a white-space policy not stricter than the encoder's (keep_compatible), not SyncML, and the reader's hypotheses on the
+   strings (lang_ok, node_ok_g). *)
 Theorem C03_roundtrip_and_idempotence_wide_partial :
   forall (main TBL : list lang) (btbl : list EncWbxml.blang) (sub : EncWbxml.bytes -> XmlFront.xtree + N)
-         evs expat_ok o doc w (L : lang) tag attrs ch o' w2,
+         evs expat_ok o doc w (L : lang) tag attrs ch o',
   let e := EncWbxml.enc_env (EncWbxmlDenote2.to_blang L) o in
   let wa := EncWbxml.has_attr_table e in
   let root := EncWbxml.NElt tag attrs ch in
@@ -510,11 +549,13 @@ Theorem C03_roundtrip_and_idempotence_wide_partial :
   let xo := EncXml.opts_of_params (gen_of (wo_gen o')) (wo_indent o') (wo_keep_ws o') in
   let nmx := to_tname L (EncWbxmlTblOk.tag_event tag) in
   let ax := map to_attr (if wa then map EncWbxmlDenote2.attr_event attrs else []) in
-  r_out (ConvXml2Wbxml.xml2wbxml_events main btbl sub evs expat_ok o doc) = Some w -> EncWbxml.len w < 4294967296 ->
+  r_out (ConvXml2Wbxml.xml2wbxml_events main btbl sub evs expat_ok o doc) = Some w ->
   (forall t0, XmlFront.tree_from_xml main sub doc evs expat_ok = inl t0 ->
      EncWbxml.find_lang btbl (XmlFront.xt_lang t0) = Some (EncWbxmlDenote2.to_blang L) /\ XmlFront.xt_roots t0 = [root]) ->
   EncWbxmlAbs.plain_env e = true -> EncWbxmlDenote2.vals_ok L = true -> l_exts L = None ->
   EncWbxmlTblOk.tree_ok3 L 0 root = true ->
+  EncWbxmlSize.lang_vals_ok (EncWbxmlDenote2.to_blang L) -> EncWbxmlSize2.names_ok root ->
+  N.of_nat (33 * EncWbxmlSize2.wsize 0 root + EncWbxmlSize2.hdr (EncWbxmlDenote2.to_blang L)) < 4294967296 ->
   find (fun y => l_id y =? l_id L) TBL = Some L ->
   lang_choiceW TBL L e (wo_lang o') -> wo_charset o' = 0 ->
   EncWbxml.o_version o < 4 -> EncWbxml.header_public_id e < 4294967296 -> EncWbxml.header_public_id e <> 0 ->
@@ -524,8 +565,7 @@ Theorem C03_roundtrip_and_idempotence_wide_partial :
   LangSelect.search_table main (option_map XmlFront.str (EncXml.xl_pub xl)) (Some (XmlFront.str (EncXml.xl_dtd xl))) None = Some L ->
   EncXml.is_indent xo = false -> EncXml.is_syncml xl = false -> keep_compatible (EncWbxml.o_keep_ws o) xo ->
   EncXmlProofs.lang_ok xl = true -> EncXmlIndent.node_ok_g xl xo EncXml.proot None (to_xnode TBL L root') = true ->
-  EncWbxml.enc_wbxml btbl (EncWbxmlDenote2.to_blang L) o [R2] = EncWbxml.EOk w2 -> EncWbxml.len w2 < 4294967296 ->
-  exists x c d,
+  exists x c d w2,
     wbxml2xml_model TBL o' w = mk_res ST_OK (Some (x ++ [0])) (N.of_nat (length x)) /\
     EncXml.enc_xml_opts xl xo [to_xnode TBL L root'] = EncXml.XOk x /\
     d = EncXmlProofs.doc_of xl [XmlRead.XE (EncXml.tname_bytes nmx) (EncXmlProofs.spec_attrs xl xo EncXml.proot nmx ax) c] /\
@@ -535,14 +575,68 @@ Theorem C03_roundtrip_and_idempotence_wide_partial :
       XmlFront.tree_from_xml main sub doc2 (events_of_info_ns d) true = inl (XmlFront.mk_xtree (l_id L) 0 [R2]) /\
       r_out (ConvXml2Wbxml.xml2wbxml_events main btbl sub (events_of_info_ns d) true o doc2) = Some w2 /\
       wbxml2xml_model TBL o' w2 = mk_res ST_OK (Some (x ++ [0])) (N.of_nat (length x)).
-Proof. exact roundtrip_and_idempotence_wide. Qed.
+Proof. exact roundtrip_and_idempotence_wide_total. Qed.
 Print Assumptions C03_roundtrip_and_idempotence_wide_partial.
+
+(* THE SAME WITH THE SOURCE-SIDE HYPOTHESIS ON THE SOURCE'S EVENTS: xmlfront's evs_canon (Model/XmlFrontCanonEvents.v: none of the twelve
+   clauses fires along the run of the callbacks; on the corpus: 216 of 220 files, measured by props/C02) gives root_canon of the tree
+   the front end hands out (C02f_image_canonical_any); what src_okW asks beyond root_canon is the fragment predicate fragW (no element
+   named Data, no binary-flagged row, elt_ok: names / namespaces / attributes come back as written, NUL-free texts):
+   C03_canonical_tree_in_fragment_is_source_ok.  Language ids are unique in the table (true of the project's: C10_shared_identifiers). *)
+Theorem C03_canonical_tree_in_fragment_is_source_ok : forall L xo wa emb root,
+  XmlFrontEvents.root_canon L emb root = true -> fragW L xo wa root -> src_okW L xo wa 0 root.
+Proof. exact root_canon_src. Qed.
+Print Assumptions C03_canonical_tree_in_fragment_is_source_ok.
+
+Theorem C03_roundtrip_and_idempotence_wide_events_partial :
+  forall (main TBL : list lang) (btbl : list EncWbxml.blang) (sub : EncWbxml.bytes -> XmlFront.xtree + N)
+         evs expat_ok o doc w (L : lang) tag attrs ch o',
+  let e := EncWbxml.enc_env (EncWbxmlDenote2.to_blang L) o in
+  let wa := EncWbxml.has_attr_table e in
+  let root := EncWbxml.NElt tag attrs ch in
+  let R2 := EncWbxml.NElt tag attrs (flat_map (TreeNorm.norm_node (EncWbxml.o_keep_ws o) false) ch) in
+  let root' := tnodeW wa R2 in
+  let xl := EncXml.xlang_of L in
+  let xo := EncXml.opts_of_params (gen_of (wo_gen o')) (wo_indent o') (wo_keep_ws o') in
+  let nmx := to_tname L (EncWbxmlTblOk.tag_event tag) in
+  let ax := map to_attr (if wa then map EncWbxmlDenote2.attr_event attrs else []) in
+  r_out (ConvXml2Wbxml.xml2wbxml_events main btbl sub evs expat_ok o doc) = Some w ->
+  (forall t0, XmlFront.tree_from_xml main sub doc evs expat_ok = inl t0 ->
+     EncWbxml.find_lang btbl (XmlFront.xt_lang t0) = Some (EncWbxmlDenote2.to_blang L) /\ XmlFront.xt_roots t0 = [root]) ->
+  XmlFrontCanonEvents.evs_canon main sub doc XmlFrontInverse.no_emb evs = true -> (forall l, In l main -> l_id l = l_id L -> l = L) ->
+  fragW L xo wa root ->
+  EncWbxmlAbs.plain_env e = true -> EncWbxmlDenote2.vals_ok L = true -> l_exts L = None ->
+  EncWbxmlTblOk.tree_ok3 L 0 root = true ->
+  EncWbxmlSize.lang_vals_ok (EncWbxmlDenote2.to_blang L) -> EncWbxmlSize2.names_ok root ->
+  N.of_nat (33 * EncWbxmlSize2.wsize 0 root + EncWbxmlSize2.hdr (EncWbxmlDenote2.to_blang L)) < 4294967296 ->
+  find (fun y => l_id y =? l_id L) TBL = Some L ->
+  lang_choiceW TBL L e (wo_lang o') -> wo_charset o' = 0 ->
+  EncWbxml.o_version o < 4 -> EncWbxml.header_public_id e < 4294967296 -> EncWbxml.header_public_id e <> 0 ->
+  (match EncWbxmlAbs.header_pid e with Some p => EncWbxmlDenote2.okb p = true | None => True end) ->
+  no_data (EncWbxmlDenote3.doc_events3 L e (EncWbxml.o_keep_ws o) root) = true ->
+  EncWbxml.find_lang btbl (l_id L) = Some (EncWbxmlDenote2.to_blang L) ->
+  LangSelect.search_table main (option_map XmlFront.str (EncXml.xl_pub xl)) (Some (XmlFront.str (EncXml.xl_dtd xl))) None = Some L ->
+  EncXml.is_indent xo = false -> EncXml.is_syncml xl = false -> keep_compatible (EncWbxml.o_keep_ws o) xo ->
+  EncXmlProofs.lang_ok xl = true -> EncXmlIndent.node_ok_g xl xo EncXml.proot None (to_xnode TBL L root') = true ->
+  exists x c d w2,
+    wbxml2xml_model TBL o' w = mk_res ST_OK (Some (x ++ [0])) (N.of_nat (length x)) /\
+    EncXml.enc_xml_opts xl xo [to_xnode TBL L root'] = EncXml.XOk x /\
+    d = EncXmlProofs.doc_of xl [XmlRead.XE (EncXml.tname_bytes nmx) (EncXmlProofs.spec_attrs xl xo EncXml.proot nmx ax) c] /\
+    (forall fuel, (EncXmlProofs.node_fuel (to_xnode TBL L root') + 2 <= fuel)%nat -> XmlRead.read_xml fuel x = XmlRead.ROk d) /\
+    events_of_info_ns d = XmlFrontInverse.doc_events L (EncXml.xl_root xl) (Some (EncXml.xl_dtd xl)) (EncXml.xl_pub xl) R2 /\
+    forall doc2, doc2 <> [] ->
+      XmlFront.tree_from_xml main sub doc2 (events_of_info_ns d) true = inl (XmlFront.mk_xtree (l_id L) 0 [R2]) /\
+      r_out (ConvXml2Wbxml.xml2wbxml_events main btbl sub (events_of_info_ns d) true o doc2) = Some w2 /\
+      wbxml2xml_model TBL o' w2 = mk_res ST_OK (Some (x ++ [0])) (N.of_nat (length x)).
+Proof. exact roundtrip_and_idempotence_wide_events. Qed.
+Print Assumptions C03_roundtrip_and_idempotence_wide_events_partial.
 
 (* ... WITH INDENT GENERATION on the wide fragment, the encoder's keep_ws off (with keep_ws on it is not a fixed point: D38).
    The front-end tree of the indented XML, Tind = etq (qual ..): the tree of the infoset with qualified names (qual: what a parser
    in namespace mode reports), has the white space between markup as text nodes; it is canonical for the front end, lies in the wide
-   fragment, and its normal form is R2 — so, whenever its encoding succeeds (w2), the second conversion of w2 writes x again.
-   Same partiality as C03_roundtrip_and_idempotence_wide_partial; the success of the second encoding is a hypothesis on Tind. *)
+   fragment, and its normal form is R2; its elements are those of R2, so its encoding SUCCEEDS (w2), and - when w2 is below 4 GiB:
+   the white space the generator inserted is not bounded by the size of the source tree - the second conversion of w2 writes x
+   again.  Otherwise the same partiality as C03_roundtrip_and_idempotence_wide_partial. *)
 Theorem C03_roundtrip_and_idempotence_indent_wide_partial :
   forall (main TBL : list lang) (btbl : list EncWbxml.blang) (sub : EncWbxml.bytes -> XmlFront.xtree + N)
          evs expat_ok o doc w (L : lang) tag attrs ch o',
@@ -561,6 +655,7 @@ Theorem C03_roundtrip_and_idempotence_indent_wide_partial :
      EncWbxml.find_lang btbl (XmlFront.xt_lang t0) = Some (EncWbxmlDenote2.to_blang L) /\ XmlFront.xt_roots t0 = [root]) ->
   EncWbxmlAbs.plain_env e = true -> EncWbxmlDenote2.vals_ok L = true -> l_exts L = None ->
   EncWbxmlTblOk.tree_ok3 L 0 root = true ->
+  EncWbxmlSize.lang_vals_ok (EncWbxmlDenote2.to_blang L) -> EncWbxmlSize2.names_ok root ->
   find (fun y => l_id y =? l_id L) TBL = Some L ->
   lang_choiceW TBL L e (wo_lang o') -> wo_charset o' = 0 ->
   EncWbxml.o_version o < 4 -> EncWbxml.header_public_id e < 4294967296 -> EncWbxml.header_public_id e <> 0 ->
@@ -581,9 +676,10 @@ Theorem C03_roundtrip_and_idempotence_indent_wide_partial :
     events_of_info_ns d = XmlFrontInverse.doc_events L (EncXml.xl_root xl) (Some (EncXml.xl_dtd xl)) (EncXml.xl_pub xl) Tind /\
     forall doc2, doc2 <> [] ->
       XmlFront.tree_from_xml main sub doc2 (events_of_info_ns d) true = inl (XmlFront.mk_xtree (l_id L) 0 [Tind]) /\
-      forall w2, EncWbxml.enc_wbxml btbl (EncWbxmlDenote2.to_blang L) o [Tind] = EncWbxml.EOk w2 -> EncWbxml.len w2 < 4294967296 ->
-        r_out (ConvXml2Wbxml.xml2wbxml_events main btbl sub (events_of_info_ns d) true o doc2) = Some w2 /\
-        wbxml2xml_model TBL o' w2 = mk_res ST_OK (Some (x ++ [0])) (N.of_nat (length x)).
+      exists w2, EncWbxml.enc_wbxml btbl (EncWbxmlDenote2.to_blang L) o [Tind] = EncWbxml.EOk w2 /\
+        (EncWbxml.len w2 < 4294967296 ->
+         r_out (ConvXml2Wbxml.xml2wbxml_events main btbl sub (events_of_info_ns d) true o doc2) = Some w2 /\
+         wbxml2xml_model TBL o' w2 = mk_res ST_OK (Some (x ++ [0])) (N.of_nat (length x))).
 Proof. exact roundtrip_and_idempotence_indent_wide. Qed.
 Print Assumptions C03_roundtrip_and_idempotence_indent_wide_partial.
 
@@ -948,4 +1044,51 @@ Example C03_ex_wide_textual_public_id :
   /\ wbxml2xml_model main_table exa_ou' exa_w = mk_res ST_OK (Some (exa_x ++ [0])) (N.of_nat (length exa_x)).
 Proof.
   split; [|vm_compute; reflexivity]. right. split; [reflexivity|]. eexists. split; vm_compute; reflexivity.
+Qed.
+
+(* the hypotheses that replace "the second encoding succeeds" hold for the two examples: no empty attribute-value row in WML 1.3 /
+   ActiveSync, no empty name in the trees, and the size bound *)
+Ltac solve_names :=
+  repeat match goal with
+  | |- _ /\ _ => split
+  | |- True => exact I
+  | |- Forall _ [] => constructor
+  | |- Forall _ (_ :: _) => constructor
+  | |- EncWbxmlSize2.name_ok _ => unfold EncWbxmlSize2.name_ok; vm_compute; discriminate
+  | |- EncWbxmlSize2.attr_ok _ => unfold EncWbxmlSize2.attr_ok, EncWbxmlSize2.name_ok; vm_compute; discriminate
+  | |- _ <> _ => vm_compute; discriminate
+  | |- _ -> False => discriminate
+  end.
+Example C03_ex_wide_encoder_hypotheses :
+  EncWbxmlSize.lang_vals_ok (EncWbxmlDenote2.to_blang exw_L) /\ EncWbxmlSize2.names_ok exw_root /\
+  N.of_nat (33 * EncWbxmlSize2.wsize 0 exw_root + EncWbxmlSize2.hdr (EncWbxmlDenote2.to_blang exw_L)) < 4294967296 /\
+  EncWbxmlSize.lang_vals_ok (EncWbxmlDenote2.to_blang exa_L) /\ EncWbxmlSize2.names_ok exa_root /\
+  N.of_nat (33 * EncWbxmlSize2.wsize 0 exa_root + EncWbxmlSize2.hdr (EncWbxmlDenote2.to_blang exa_L)) < 4294967296.
+Proof.
+  assert (V1 : EncWbxmlSize.lang_vals_ok (EncWbxmlDenote2.to_blang exw_L)) by (unfold EncWbxmlSize.lang_vals_ok; vm_compute; solve_names).
+  assert (V2 : EncWbxmlSize.lang_vals_ok (EncWbxmlDenote2.to_blang exa_L)) by (unfold EncWbxmlSize.lang_vals_ok; vm_compute; solve_names).
+  assert (N1 : EncWbxmlSize2.names_ok exw_root) by (unfold exw_root; cbn [EncWbxmlSize2.names_ok]; solve_names).
+  assert (N2 : EncWbxmlSize2.names_ok exa_root) by (unfold exa_root; cbn [EncWbxmlSize2.names_ok]; solve_names).
+  split; [exact V1|]. split; [exact N1|]. split; [vm_compute; reflexivity|]. split; [exact V2|]. split; [exact N2|]. vm_compute; reflexivity.
+Qed.
+
+(* the events form of the source-side hypothesis, on the WML example: evs_canon of the source's events, fragW of its tree, unique ids *)
+Ltac solve_frag :=
+  cbn [fragW];
+  repeat match goal with
+  | |- _ /\ _ => split
+  | |- True => exact I
+  | |- elt_ok _ _ _ _ _ => unfold elt_ok, attrs_link
+  | |- match ?m with Some _ => _ | None => _ end => let v := eval vm_compute in m in change m with v; cbv beta iota
+  | |- exists _, _ => eexists
+  | |- _ = _ => first [reflexivity | vm_compute; reflexivity]
+  end.
+Example C03_ex_wide_events_hypotheses :
+  XmlFrontCanonEvents.evs_canon main_table ex_sub [60] XmlFrontInverse.no_emb exw_evs = true /\
+  fragW exw_L exw_xo true exw_root /\
+  (forall l, In l main_table -> l_id l = l_id exw_L -> l = exw_L).
+Proof.
+  split; [vm_compute; reflexivity|]. split; [unfold exw_root; solve_frag|].
+  intros l Hin Hid. unfold main_table in Hin.
+  repeat (destruct Hin as [<-|Hin]; [first [reflexivity | vm_compute in Hid; discriminate]|]). destruct Hin.
 Qed.
